@@ -7,7 +7,7 @@ patch=$(readlink -f "$1"); tier=$2; shift 2
 wt=/tmp/wt-mut-$$
 git -C /repo worktree add -q --detach "$wt" HEAD || exit 2
 if ! git -C "$wt" apply "$patch"; then echo "PATCH-DOES-NOT-APPLY $patch"; git -C /repo worktree remove --force "$wt"; exit 2; fi
-cd /verif || exit 2
+here=$(cd "$(dirname "$0")/.." && pwd); cd "$here" || exit 2
 for c in "$@"; do
   out=$(BBV_REPO="$wt" ./check "$c" --tier "$tier" 2>&1); rc=$?
   nviol=$(printf '%s\n' "$out" | grep -c '^VIOLATION')
@@ -16,5 +16,5 @@ for c in "$@"; do
   [ -n "$first" ] && printf '%s\n' "$first"
   [ $rc -eq 2 ] && printf '%s\n' "$out" | tail -5
 done
-for c in "$@"; do rm -rf "/verif/artifacts/$c"; done
+for c in "$@"; do rm -rf "$here/artifacts/$c"; done
 git -C /repo worktree remove --force "$wt"
